@@ -350,4 +350,7 @@ def jobs(tier):
     for cfg in ('two_data_likelihoods', 'data_and_user_defined_likelihood', 'user_defined_first', 'three_likelihoods'):
         J.append(Job(f'MultipleLikelihoodPosterior.gradient:sum_over_all_densities:{cfg}', lambda c, cfg=cfg: multiple_likelihood_posterior(c, cfg), 'Pbox',
                      [f'{D}._joint_distribution:MultipleLikelihoodPosterior.gradient', 'cuqi.likelihood._likelihood:UserDefinedLikelihood.gradient'], rtol=1e-4, timeout=300))
+    # gradients of the Markov-random-field priors through the difference operators, every boundary condition (contracts live with C20)
+    from contracts import C20 as _c20
+    J += [j for j in _c20.jobs(tier) if '.gradient:' in j.id]
     return J
